@@ -370,6 +370,8 @@ class Repo:
                 for node in ast.walk(init.node):
                     if isinstance(node, ast.Attribute) and isinstance(node.ctx, ast.Store) and isinstance(node.value, ast.Name) and node.value.id == selfname:
                         fields.add(node.attr)
+            if any(isinstance(b, ExternalRef) and b.dotted.split(".")[-1] == "NamedTuple" for b in self.mro(k)):
+                fields.update(n for n, _ in getattr(k, "annotations", []))       # typing.NamedTuple: the annotated names are the fields
         return fields
 
     def init_value_expr(self, c, name):
